@@ -46,14 +46,18 @@ def run(prop, tier, *, tags=None, norm=False, opts=None, specs=None, extra=None)
     if specs is None:
         specs = list(e2fam.quick_specs() if tier == "quick" else e2fam.thorough_specs())
         # the same plans built in other orders (sources created first / registry.add after the whole plan exists)
-        var = [(n, s) for n, s in specs if e2fam.has_registered_dependency(s) and (tier != "quick" or n != "fam2")]
+        var = [(n, s) for n, s in specs if e2fam.has_registered_dependency(s) and (n != "fam3") and (tier != "quick" or n != "fam2")]
         for o in ("sources-first", "adds-late"):
             specs += [((n, {"order": o}), s) for n, s in var if tier != "quick" or o == "sources-first" or not n.startswith("fam")]
-        # every pop order of the 'random' scheduler, each cut at every operation
-        pops = [(n, s) for n, s in specs if isinstance(n, str) and (n in e2fam.POPS_QUICK if tier == "quick" else n != "fam3")]
+        # every pop order of the 'random' scheduler, each cut at every operation (small plans only: the number of
+        # pop orders grows factorially with the width of the physical plan)
+        def small(sp):
+            return len(sp) <= 4 and sum(1 for nd in sp if nd["kind"] in e2.TIMED) <= 3
+        pops = [(n, s) for n, s in specs if isinstance(n, str) and (n in e2fam.POPS_QUICK if tier == "quick" else (n != "fam3" and small(s)))]
         specs += [((n, {"pops": True, "fail_combos": "few"}), s) for n, s in pops]
         if tier != "quick":
-            specs += [((n, {"pops": True, "order": "sources-first", "fail_combos": "few"}), s) for n, s in pops if e2fam.has_registered_dependency(s)]
+            specs += [((n, {"pops": True, "order": "sources-first", "fail_combos": "few"}), s) for n, s in pops
+                      if e2fam.has_registered_dependency(s) and not n.startswith("fam")]
     # largest first (better load balance); VERIF_SEED rotates ties only - the explored set is seed independent
     def cost(item):
         n, sp = item
